@@ -111,9 +111,12 @@ def juniper_nonrandom_encrypt(plain: str, salt: str = None) -> str:
     Returns:
       String representing the encrypted secret.
     """
-    if salt is None:
+    if not salt:
         salt = _fixedc(1)
     salt = salt[0]
+    if salt not in EXTRA:
+        # Any string may be used as salt, map its first char into the alphabet
+        salt = NUM_ALPHA[ord(salt) % len(NUM_ALPHA)]
     rand = _fixedc(EXTRA[salt])
 
     pos = 0
